@@ -109,6 +109,11 @@ def node_class(e, decls):
     return "%s:%s" % (t, G.BOPS[e[1]])
 
 
+def eval_key(cls, site):
+    """finding key of a blamed initialiser class (override defaults and derived globals share the evaluator)"""
+    return (site + "-" + cls) if cls.startswith("init-dropped:") else "override-eval:" + cls
+
+
 def strip_type(cls):
     """operator class without the operand type (function-level and MSL keys)"""
     parts = cls.split(":")
@@ -278,7 +283,7 @@ class Checker:
                 return "init-dropped:" + (init_drop_reason(s) or "other")
             if mv is None or G.norm_lit(mv) != G.norm_lit(sv[1]):
                 if which != "model_po" or s[0] not in (3, 4):
-                    return cls if not (which != "model_po" and s[0] == 1) else "ref-to-unresolved:" + G.TYNAME[decls[s[1]]["real_ty"]]
+                    return cls if not (which != "model_po" and s[0] == 1) else "ref-to-unresolved"
                 if cls.startswith("abstract"):
                     return cls
                 # the operator in isolation
@@ -507,7 +512,7 @@ class Checker:
                     else:
                         cls = self.blame_expr(case, decls[:i], d["init"], t) if d["init"] is not None else "no-init"
                         if cls is not None:
-                            self.finding(case, "override-eval:" + cls, "WGSL requires a pipeline-creation error for the default of %s "
+                            self.finding(case, eval_key(cls, "override"), "WGSL requires a pipeline-creation error for the default of %s "
                                          "but ProcessOverrides resolved it to %s" % (d["name"], impl_vals[i]))
                 break
             if impl_err:
@@ -534,7 +539,7 @@ class Checker:
                     cls = self.blame_expr(case, decls[:i], d["init"], t)
                     if cls is None:
                         break
-                    key = "override-eval:" + cls
+                    key = eval_key(cls, "override")
                 self.finding(case, key, "override %s: WGSL value %s, ProcessOverrides resolved %s" % (d["name"], lit_str(s[1]), lit_str(impl_vals[i])))
                 break
         if all_ok and not impl_err:
@@ -552,7 +557,7 @@ class Checker:
                     if sp[1] == "diag":
                         cls = self.blame_expr(case, decls, gl["init"], gl["ty"])
                         if cls:
-                            self.finding(case, "override-eval:" + cls, "WGSL requires a pipeline-creation error for the initialiser of %s, "
+                            self.finding(case, eval_key(cls, "global"), "WGSL requires a pipeline-creation error for the initialiser of %s, "
                                          "ProcessOverrides made it %s" % (gl["name"], lit_str(got)))
                     continue
                 if got != G.norm_lit(sp[1]):
@@ -562,7 +567,7 @@ class Checker:
                         cls = self.blame_expr(case, decls, gl["init"], gl["ty"])
                         if cls is None:
                             continue
-                        key = "override-eval:" + cls
+                        key = eval_key(cls, "global")
                     self.finding(case, key, "global %s: WGSL initial value %s, after ProcessOverrides %s" % (gl["name"], lit_str(sp[1]), lit_str(got)))
             if p["wg"]:
                 got = go["po"]["workgroups"][0]["wg"]
@@ -788,14 +793,17 @@ def run(ctx):
     # programs
     n = ctx.scale(400, 40000)
     cases = []
-    for i in range(n):
-        kind = ["unit", "unit", "mixed", "values", "mixed"][i % 5]
-        cases.append(Case(i, G.program(rng.fork("p%d" % i), kind)))
-    for c in handmade():
-        c.id = len(cases)
-        cases.append(c)
-    for pr in G.matrix_programs(full=ctx.thorough):
-        cases.append(Case(len(cases), pr))
+    if getattr(ctx, "replay", None):
+        cases.append(load_replay(ctx.replay))
+    else:
+        for i in range(n):
+            kind = ["unit", "unit", "mixed", "values", "mixed"][i % 5]
+            cases.append(Case(i, G.program(rng.fork("p%d" % i), kind)))
+        for c in handmade():
+            c.id = len(cases)
+            cases.append(c)
+        for pr in G.matrix_programs(full=ctx.thorough):
+            cases.append(Case(len(cases), pr))
     jobs = [{"id": c.id, "src": c.prog["src"], "data": {"consts": [[k, str(b)] for k, b in c.prog["vmap"]],
                                                          "paths": ["po", "backends", "glsl", "msl"]}} for c in cases]
     lap("generate")
@@ -824,7 +832,7 @@ def run(ctx):
                        "function-level lets; nested-block/return/call shapes) x value map (absent, by id, by name, both, NaN, inf, huge, "
                        "fractional, negative, unknown keys); distinct = distinct (declarations, map) pairs compared with the spec; "
                        "non-trivial = the module lowered and every model/implementation observable was compared")
-    if st["lower_rejected"] > st["cases"] // 3:
+    if st["lower_rejected"] > st["cases"] // 3 and not getattr(ctx, "replay", None):
         ctx.violation("the generator's programs are mostly rejected by naga (%d of %d): the check would be vacuous" % (st["lower_rejected"], st["cases"]),
                       found_input=False, key="tie:generator-rejected", broken="generator vs front end")
     if broken:
@@ -833,6 +841,23 @@ def run(ctx):
                           found_input=False, broken=broken)
         else:
             ctx.cov["broken_tie"] = broken
+
+
+def load_replay(d):
+    """a Case from the files a violation wrote (bin/check C14 --replay <dir>)"""
+    import os
+    cj = json.load(open(os.path.join(d, "case.json")))
+    src = open(os.path.join(d, "program.wgsl")).read()
+    decls = []
+    for x in cj["decls"]:
+        dd = {"name": x["name"], "id": x["id"], "ty": x["ty"], "init": x["init"], "real_ty": x["ty"]}
+        if dd["real_ty"] is None:
+            dd["real_ty"] = G.infer_ty(x["init"], decls) if x["init"] is not None else G.F32
+        decls.append(dd)
+    globs = [{"name": "gv" + "abcd"[i], "ty": g["ty"], "init": g["init"]} for i, g in enumerate(cj["globals"])]
+    shape = 1 if any(w in src for w in ("if (", "loop", "fn h", "switch")) else 0
+    return Case(0, {"kind": "replay", "decls": decls, "consts": [], "globals": globs, "wg": cj["wg"], "lets": cj["lets"],
+                    "src": src, "vmap": [[k, int(b)] for k, b in cj["consts"]], "vclasses": {}, "shape": shape})
 
 
 def handmade():
